@@ -94,6 +94,21 @@ ShareEdge(Gr, a, b) == EdgesOf(Gr, a) \cap EdgesOf(Gr, b) # {}
 \* neu: the set of Neumann faces; every other boundary face is Dirichlet
 NoSharedEdge(Gr, neu) == Gr.dim = 3 => \A a, b \in neu : a # b => ~ShareEdge(Gr, a, b)
 Admissible(Gr, E, neu) == neu \subseteq BoundaryFaces(Gr, E) /\ NoSharedEdge(Gr, neu)
+\* component-wise boundary types ("rolling" conditions).  The dominant component of a face = the coordinate direction
+\* in which its normal is largest (lowest index on ties); for axis-aligned faces it is the normal direction.
+\* "rollN": the dominant (normal) component is Dirichlet, the others Neumann - the body may roll along the wall;
+\* "rollT": the dominant component is Neumann, the others Dirichlet.
+FaceNormalI(Gr, f) == IF Gr.dim = 3 THEN FaceN2(Gr, f)
+                      ELSE LET d == VSub(P(Gr, Gr.fn[f][2]), P(Gr, Gr.fn[f][1])) IN <<d[2], -d[1], 0>>
+DominantComp(Gr, f) == LET n == FaceNormalI(Gr, f)
+                       IN CHOOSE k \in 1..Gr.dim : \A j \in 1..Gr.dim : Abs(n[k]) > Abs(n[j]) \/ (Abs(n[k]) = Abs(n[j]) /\ k <= j)
+RollComps(Gr, f, mode) == IF mode = "rollN" THEN (1..Gr.dim) \ {DominantComp(Gr, f)} ELSE {DominantComp(Gr, f)}
+\* neu: fully Neumann faces, nc: further Neumann components <<f, k>>.  Consistent with a boundary-value problem
+\* that fixes the translation: everything on the boundary, and at least one face Dirichlet in every component
+CompAdmissible(Gr, bf, neu, nc) ==
+  /\ neu \subseteq bf
+  /\ \A fk \in nc : fk[1] \in bf /\ fk[2] \in 1..Gr.dim
+  /\ \E f \in bf : f \notin neu /\ \A k \in 1..Gr.dim : <<f, k>> \notin nc
 \* the displacement gradient of a 2D grid acts in the plane only
 FieldFits(Gr, G) == Gr.dim = 2 => \A k \in 1..3 : G[3][k] = 0 /\ G[k][3] = 0
 
